@@ -23,7 +23,18 @@ CLAIMED = {
          "DESIGN.md section 3, C05"),
 }
 
-PENDING = {k: 'check under construction in this session (simulation applies; see DESIGN.md); not claimed yet' for k in ['C04','C06','C07','C09','C14','C16','C17','C18','C19']}
+CLAIMED.update({
+ "C04": ("deterministic simulation: real Connection::connect against a scripted handshake peer on a simulated socket and paused clock (peer deviations, silence, delays around the timeout, truncation, reset as faults) + seeded API-step histories of HandshakeStateMachine against a reference model",
+         "Seeded search over (cookie, names, flags, timeout, network behaviour, 1..3 attempts with at most one peer deviation each) on the real connect path, and over 3..12-step API histories checked step by step against a reference model that remembers the challenge issued since the last disconnect. Oracle: connected only with proof; flags are the intersection; emitted handshake bytes parse with an independent reader; non-conforming peers end in an error within the timeout of the deviation. Sampling, not proof.",
+         "Trusted: tokio paused clock and scheduler, md-5 primitive, the simulator's peer model and handshake layouts (written from the protocol documents), EPMD stub conforms.",
+         "DESIGN.md section 3, C04"),
+ "C17": ("deterministic simulation: concurrent rpc_call* on a real Node against a simulated rex that delays, reorders, duplicates, drops and misaddresses replies; connection faults (peer close/reset, write error); seeded yield points around the outstanding-call table; history oracle + table inspected at quiescence",
+         "Seeded search over (1..8 callers x 1..4 calls, per-call reply behaviour and delay relative to the caller's timeout, network behaviour, yield-point subset, optional connection fault). Oracle over the recorded history: every Ok is a reply the peer addressed to that call's own reply pid, no reply is returned twice, error kinds are admissible for what was injected, the outstanding-call table is empty at quiescence, a fresh call succeeds once faults stopped. Sampling, not proof.",
+         "Trusted: tokio (paused clock, oneshot, Mutex), dashmap, the rex/peer model and its independent frame reader; single runtime thread per run (interleavings only at await/yield points).",
+         "DESIGN.md section 3, C17"),
+})
+
+PENDING = {k: 'check under construction in this session (simulation applies; see DESIGN.md); not claimed yet' for k in ['C06','C07','C09','C14','C16','C18','C19']}
 
 def main():
     hooks = subprocess.run(["git","-C","/repo","log","--format=%H %s","--grep=^verif hook"],capture_output=True,text=True).stdout.strip().splitlines()
